@@ -20,7 +20,7 @@ func runC18(c *rules.Ctx) {
 	c.Let("PARAMS", "mintkeeper.Keeper.GetParams(k,ctx)")
 	c.Let("MINTER", "mintkeeper.Keeper.GetMinter(k,ctx)")
 	// the epochs module sees the keeper's verdict: a mint epoch that aborted half way is reported (and rolled back)
-	c.Returns("x/mint/keeper.Hooks.AfterEpochEnd", 0, "mintkeeper.Keeper.AfterEpochEnd(h.k,ctx,epochIdentifier,epochNumber)", "the hook wrapper returns the keeper's error unchanged", "")
+	c.CheckedCall("x/mint/keeper.Hooks.AfterEpochEnd", "mintkeeper.Keeper.AfterEpochEnd", []string{"h.k", "ctx", "epochIdentifier", "epochNumber"}, "the hook wrapper runs the keeper's epoch step for the same epoch and fails when it fails", "")
 	// schedule
 	c.OnlyWhen(H, "mintkeeper.Keeper.mintCoins|mintkeeper.Keeper.DistributeMintedCoin|mintkeeper.Keeper.SetMinter", "eq(epochIdentifier, {PARAMS}.EpochIdentifier)", "only the configured mint epoch mints")
 	c.OnlyWhen(H, "mintkeeper.Keeper.mintCoins|mintkeeper.Keeper.DistributeMintedCoin", "not(lt(epochNumber, {PARAMS}.MintingRewardsDistributionStartEpoch))", "nothing is minted before the start epoch")
